@@ -12,6 +12,8 @@ from .prop_flow import DftFlow, configs
 
 
 def run(chk, repo, tier):
+    from .common import no_hidden_state
+    no_hidden_state(chk, repo, 'C05')
     chk.clause('C05-a', 'unitary factor is sqrt|alpha_row*alpha_col| (axis symmetric), applied exactly when unitary; '
                         'the propagator asks for the unitary transform', 5)
     chk.clause('C05-b', 'FFT path is orthonormal', 1)
